@@ -100,7 +100,7 @@ def report(chk: Check, case: dict, prop: str, origin: str):
     else:
         chk.violation(
             f"correspondence broken (the property's own oracle still holds on this case): step {v2[1]} {v2[2]}",
-            dict(replay, broken="correspondence Model/Tx.lean + Model/TxCtx.lean <-> cashews/backends/transaction.py + cashews/wrapper/transaction.py"),
+            dict(replay, broken="correspondence Model/Tx.lean + Model/TxMatch.lean + Model/TxCtx.lean <-> cashews/backends/transaction.py + cashews/wrapper/transaction.py"),
             signature=None, no_input=True)
 
 
@@ -112,9 +112,10 @@ def corpus_cases(prop: str):
 
 def exhaustive_cases():
     """all initial shapes of one key x all histories of <= 2 commands over that key from a small command
-    alphabet x 3 modes x {commit, Exception, non-Exception BaseException, cancellation} (thorough tier)"""
+    alphabet (pattern commands included) x 3 modes x {commit, Exception, non-Exception BaseException, cancellation} (thorough tier)"""
     cmds = ["set 0 t:9 - a", "set 0 t:9 8 nx", "set 0 t:9 - xx", "incr 0 1 8", "delete 0", "expire 0 16",
-            "get 0", "getexpire 0", "exists 0", "getmany 0 2", "adv 2"]
+            "get 0", "getexpire 0", "exists 0", "getmany 0 2", "adv 2",
+            f"delmatch {txhist.enc('ka*')}", f"delmatch {txhist.enc('x*')}", f"scan {txhist.enc('k*')}"]
     inits = [["adv 3"], ["set 0 i:1 - a", "adv 3"], ["set 0 i:1 19 a", "adv 3"], ["set 0 i:1 2 a", "adv 3"]]
     hists = [[a] for a in cmds] + [[a, b] for a in cmds for b in cmds]
     for ini in inits:
@@ -126,7 +127,8 @@ def exhaustive_cases():
 
 TRUSTED = [
     "Lean 4.33.0 kernel; axioms of every theorem audited to be within {propext, Classical.choice, Quot.sound}",
-    "hand-written models lean/CashewsVerif/Model/Tx.lean (cashews/backends/transaction.py) and Model/TxCtx.lean "
+    "hand-written models lean/CashewsVerif/Model/Tx.lean + Model/TxMatch.lean (cashews/backends/transaction.py; the pattern commands over "
+    "Model/Glob.lean, which C13 ties to Memory.scan / delete_match / get_match) and Model/TxCtx.lean "
     "(cashews/wrapper/transaction.py), tied to the code by this run's four-way history correspondence",
     "Model/Mem.lean for overlay and backend (C01 ties it to cashews/backends/memory.py)",
     "harness: virtual clock (harness/vtime.py), canonicalisation, the raw non-touching observer (harness/txhist.py)",
@@ -148,6 +150,10 @@ def run_prop(chk: Check, prop: str) -> int:
     for c in txhist.default_cases(None if chk.thorough else chk.rng):
         cases.append(("caller-default", c))
         ndef += 1
+    npat = 0
+    for c in txhist.pattern_cases(None if chk.thorough else chk.rng, 3000):
+        cases.append(("delete-match", c))
+        npat += 1
     for i in range(n):
         cases.append((f"gen:{i}", txhist.gen_case(chk.rng, i)))
     nexh = 0
@@ -202,6 +208,19 @@ def run_prop(chk: Check, prop: str) -> int:
     if proof is not None:
         chk.proof_broken(proof, found > 0)
     chk.coverage.update({
+        "delete_match_cases": npat,
+        "delete_match_rule": "pattern commands inside a transaction are commands of the histories like any other (delete_match 7%, scan and get_match 2.5% "
+                             "each of the generated commands, half of the patterns repeating one used earlier in the same program; patterns over the names "
+                             "ka / kb1 / kb2 selecting all keys, two, one or none, none of them reaching the reserved ':' lock keys); plus the enumerated "
+                             "sub-space: 8 initial stores (each key absent / present) x [one earlier write or none: set, set with ttl, incr, delete of ka, "
+                             "delete of kb1, expire, set only-if-absent, set only-if-present, delete_many, set_many] x delete_match(p1) x [one write in "
+                             "between or none] x [delete_match(p2) or none], p1, p2 in {k*, kb*, ka, kb1, x* (nothing)} - so delete_match meets keys that are "
+                             "only pending, only in the store, both, pending-deleted or absent, before and after writes of matching and non-matching keys, "
+                             "repeated with the identical and with a different pattern - followed by get_many of all keys, scan, get_match, exists and a "
+                             "conditional set from inside, the end of the block and a scan from outside: 29040 points; thorough tier: all of them, each in fast mode (plain backend) "
+                             "and in one of the lock modes (lock backend; locked / serializable alternating) - exhaustive over this space -, every 7th also "
+                             "left by an exception; quick tier: 3000 points drawn from VERIF_SEED, one of the three modes each, "
+                             "15% left by an exception / a cancellation",
         "caller_default_cases": ndef,
         "caller_default_rule": "reads with a caller-supplied default (`get(k, default=d)`, `get_many(..., default=d)`, d a value of the alphabet "
                                "- None, a small int, the identical token object - instead of the harness's private sentinel): about half of the "
@@ -238,7 +257,7 @@ def run_prop(chk: Check, prop: str) -> int:
                         "VERIF_SEED, thorough tier: all three modes (exhaustive over this space)",
         "exhaustive": bool(nexh),
         "exhaustive_cases": nexh,
-        "exhaustive_rule": "thorough tier: 4 initial shapes of one key x all histories of <= 2 commands from an 11-command alphabet x 3 modes x {commit, Exception, BaseException, cancellation}",
+        "exhaustive_rule": "thorough tier: 4 initial shapes of one key x all histories of <= 2 commands from a 14-command alphabet (delete_match of the key, delete_match of nothing and scan included) x 3 modes x {commit, Exception, BaseException, cancellation}",
         "event_histogram": hist,
         "interesting_states_cases": interesting,
         "transaction_segments": nseg,
@@ -252,7 +271,8 @@ def run_prop(chk: Check, prop: str) -> int:
                        "exception that comes out of the block must be the one that went in (a swallowed or replaced one is reported)",
         "trusted_base": TRUSTED,
         "partial": "one task and one Memory backend; a context object shared between tasks is not exercised; non-dyadic TTLs, more than 3 keys, blocks longer than 14 commands, the overlay's "
-                   "own capacity of 1000 entries, delete_match/scan/get_match inside a transaction (C13) are not exercised",
+                   "own capacity of 1000 entries, patterns that reach the reserved ':'-prefixed lock keys (excluded by the properties' proviso), pattern "
+                   "metacharacters other than '*' (C13's subject) are not exercised",
     })
     chk.assumptions.extend(TRUSTED)
     return chk.finish(proof)
